@@ -92,12 +92,12 @@ func matrix() (M, []cell) {
 		}
 	}
 	for _, ex := range []bool{false, true} {
-		add("query", "form", ex, append(append([]string{}, prims...), "strings", "ints", "object")...)
+		add("query", "form", ex, append(append([]string{}, prims...), "strings", "ints", "object", "map")...)
 		add("query", "pipeDelimited", ex, "strings", "ints")
-		add("header", "simple", ex, append(append([]string{}, prims...), "strings", "ints", "object")...)
+		add("header", "simple", ex, append(append([]string{}, prims...), "strings", "ints", "object", "map")...)
 	}
-	add("query", "deepObject", true, "object")
-	add("cookie", "form", false, append(append([]string{}, prims...), "strings", "ints", "object")...)
+	add("query", "deepObject", true, "object", "map")
+	add("cookie", "form", false, append(append([]string{}, prims...), "strings", "ints", "object", "map")...)
 	add("cookie", "form", true, prims...)
 	paths := M{}
 	for i, c := range cells {
